@@ -164,7 +164,12 @@ impl Nullable for TrueName {
 
 impl Substitute for TrueName {
     fn substitute(&self, generics: &HashMap<Name, Name>, pos: Position) -> TypeResult<TrueName> {
+        // the variant cannot say that what replaces it may be None: List[@1] with @1 := Int? is a List[Int?]
+        let by_nullable = generics
+            .get(&Name::from(&self.variant))
+            .is_some_and(|new| new.names.iter().any(|n| n.is_nullable));
         Ok(TrueName {
+            is_nullable: self.is_nullable || by_nullable,
             variant: self.variant.substitute(generics, pos)?,
             ..self.clone()
         })
